@@ -86,6 +86,9 @@ def handle (l : Line) : Option (Except String String) :=
   | "life.metrics" => some (do   -- the metrics server: a stop-group member like a frontend; stopped means the port is closed
       let imm ← l.bool "immediate"
       pure (s!"served={if imm then "-" else "1"} stopped=1 errs=0 free_at_stop=1 goroutines_left=0 second_cycle=1 listening=0\tmetrics"))
+  | "life.metrics_race" => some (do   -- `C16_metrics_stop_leaves_nothing`, at every distance between NewServer and Stop
+      let n ← l.nat "n"
+      pure (s!"free_at_stop={n}/{n} stop_pending=0 goroutines_left=0\tmetricsrace"))
   | "clock.stall" => some (pure "fresh_before=1 unix_consistent=1 held=1 caught_up_after=1\tclock")   -- the cached clock is the wall time of its last tick
   | "life.store_stop" => some (pure (if l.get "kind" == "redis" then "stopped=1 goroutines_left=0\tstore"
       else "stop_pending_while_pass_parked=1 stopped=1 goroutines_left=0\tstore"))   -- the store's Stop waits for its expiry pass
